@@ -6,6 +6,14 @@ From CKT Require Import Common.Base Extracted.Facts Model.Kappa.
 Close Scope Q_scope.
 Local Open Scope string_scope.
 
+(* a binary64 value m * 2^e (the harness writes floats this way: short literals) *)
+Definition fl (m e : Z) : Q :=
+  match e with
+  | Z0 => m # 1
+  | Zpos p => (m * 2 ^ Zpos p)%Z # 1
+  | Zneg p => m # (2 ^ p)%positive
+  end.
+
 Definition tol12 : Q := 1 # 1000000000000.
 Definition tol11 : Q := 1 # 100000000000.
 Definition tol9 : Q := 1 # 1000000000.
